@@ -65,6 +65,7 @@ public:
     bool hasUBound(LVRef v) const { return int_ubounds[getVarId(v)].size() != 0; }
     const LABound& readUBound(const LVRef &v) const;
     LABoundRef readUBoundRef(LVRef v) const;
+    bool isBoundAsserted(LVRef v, LABoundRef br) const; // Is br on the stack of currently asserted bounds of v?
     inline const Delta& Lb(LVRef v) const { return readLBound(v).getValue(); }
     inline const Delta& Ub(LVRef v) const { return readUBound(v).getValue(); }
     void pushBacktrackPoint();
